@@ -95,9 +95,21 @@ impl<'a> Display for FormatReportFormatter<'a> {
 
 fn annotation(error: &FormattingError) -> Option<Annotation<'_>> {
     let (range_start, range_length) = error.format_len();
-    let range_end = range_start + range_length;
+    // `format_len` counts columns (a tab is `tab_spaces` columns wide, a multi-byte character
+    // one), while the annotation is a byte range of the line: keep it inside the line and on
+    // character boundaries.
+    let line = &error.line_buffer;
+    let clamp = |column: usize| {
+        let mut index = column.min(line.len());
+        while !line.is_char_boundary(index) {
+            index -= 1;
+        }
+        index
+    };
+    let range_end = clamp(range_start + range_length);
+    let range_start = clamp(range_start);
 
-    if range_length > 0 {
+    if range_end > range_start {
         Some(Level::Error.span(range_start..range_end))
     } else {
         None
